@@ -111,7 +111,13 @@ impl MultiPeerBackend for SubSocketBackend {
         crate::verif_hooks::yield_point("sub.peer_connected.after_resubscribe").await;
 
         self.peers
-            .upsert_async(peer_id.clone(), Peer { send_queue })
+            .upsert_async(
+                peer_id.clone(),
+                Peer {
+                    send_queue,
+                    registration: 0,
+                },
+            )
             .await;
         #[cfg(feature = "verif-hooks")]
         crate::verif_hooks::yield_point("sub.peer_connected.after_upsert").await;
